@@ -367,6 +367,18 @@ class C07(PropBase):
         if not model.same(out.value, v):
             sess.violation("recursive-roundtrip-mismatch", i, {"t": tsrc, "depth": d, "after_abort": sess.aborted},
                            sig=f"mismatch:{step['t']['k']}:{'after-abort' if sess.aborted else 'clean'}")
+            return
+        # every level is converted - also an empty leaf container: none of the caller's own mutable
+        # containers (here: those of the wire form that was unmarshalled) is handed back inside the result
+        wire = sess.results.get(("wire", sid))
+        if wire is not None:
+            mine = model.containers_in(out.value)
+            theirs = model.containers_in(wire)
+            shared = [c for c in mine if c in theirs]
+            if shared:
+                sess.violation("level-passed-through-raw", i, {"t": tsrc, "depth": d, "where": f"{len(shared)} container(s) of the input are part of the result "
+                                                               f"({type(mine[shared[0]]).__name__} of length {len(mine[shared[0]])})", "direction": "unmarshal"},
+                               sig="raw-level:input-container-in-result")
 
 
 PROP = C07()
